@@ -140,6 +140,12 @@ func init() {
 				sendCase(cw, []rscp.Message{{Tag: 0x01000001, DataType: rscp.CString, Value: s}}, crc, now, fmt.Sprintf("value-size=%d", v))
 				sendCase(cw, []rscp.Message{{Tag: rscp.BAT_REQ_DATA, DataType: rscp.Container, Value: []rscp.Message{{Tag: 1, DataType: rscp.ByteArray, Value: []byte(s)}}}}, crc, now, fmt.Sprintf("value-size=%d nested", v))
 			}
+			// a single container whose items each fit but do not fit together
+			for _, inner := range []int{40000, 32760, 32761} {
+				ms := []rscp.Message{{Tag: rscp.BAT_REQ_DATA, DataType: rscp.Container, Value: []rscp.Message{
+					{Tag: 1, DataType: rscp.CString, Value: strings.Repeat("a", inner)}, {Tag: 2, DataType: rscp.CString, Value: strings.Repeat("b", inner)}}}}
+				sendCase(cw, ms, crc, now, fmt.Sprintf("single-container items=2x%d", inner))
+			}
 			for _, t := range ts {
 				a := (t - 14) / 2
 				b := t - 14 - a
